@@ -1,11 +1,12 @@
 ''' Extend SCAPY packet interface for CBOR structure encoding.
 '''
 import copy
+import io
 import logging
 import cbor2
 import scapy.packet
 from scapy.config import conf
-from .fields import (UintField, CborField)
+from .fields import (UintField, CborField, DecodeError)
 
 LOGGER = logging.getLogger(__name__)
 
@@ -37,7 +38,10 @@ class AbstractCborStruct(scapy.packet.Packet):
         :param data: The encoded bundle.
         '''
         if isinstance(s, (bytes,)):
-            s = cbor2.loads(s)
+            buf = io.BytesIO(s)
+            s = cbor2.load(buf)
+            if buf.read(1):
+                raise DecodeError('Extra data after the encoded item')
         scapy.packet.Packet.dissect(self, s)
 
 
